@@ -294,6 +294,20 @@ func c15RaceRound(run *vlib.Run, cl *c15Cluster, m *c15Model, rc c15RaceCase, ch
 		timing = "recovery-action-no-slow-writer"
 	}
 	run.Count("schedules_timing_"+timing, 1)
+	for _, class := range []string{"snapshot-has-no-entry", "document-is-the-version-being-deleted", "document-version-differs-from-version-being-deleted", "snapshot-has-live-entry"} {
+		if n := cl.Cleanups(class); n > 0 {
+			run.Count("cleanup_deletes_"+class, n)
+		}
+	}
+	// what the cleaning node observed is part of the history shape: a cleanup that removed a config document which
+	// was NOT the version the node's registry snapshot recorded as being deleted (somebody re-created the database)
+	// is a different root cause from a cleanup decided on a snapshot without any entry
+	if cl.Cleanups("document-version-differs-from-version-being-deleted") > 0 {
+		timing += "|cleanup=removed-config-document-that-was-not-the-version-being-deleted"
+	}
+	if cl.Cleanups("snapshot-has-live-entry") > 0 {
+		timing += "|cleanup=removed-config-document-of-live-registry-entry"
+	}
 	if concurrentBad {
 		return sc, false
 	}
@@ -637,6 +651,8 @@ func c15FixedRaceCases() []c15RaceCase {
 	c := func(ch c15Change) c15ActorOp { return c15ActorOp{Ch: ch} }
 	ld := c15ActorOp{Load: true}
 	p0 := []c15Step{ok(cr("db1", 1, "c1", "c2"))}
+	pdel := []c15Step{ok(cr("db1", 1, "c1")), die(del("db1"), 2, false)}
+	pdel2 := []c15Step{ok(cr("db1", 1, "c1")), ok(up("db1", 2, "c1", "c2")), die(del("db1"), 2, false)}
 	return []c15RaceCase{
 		{p0, [][]c15ActorOp{{c(up("db1", 10, "c1"))}, {c(up("db1", 20, "c2", "c3"))}}},
 		{p0, [][]c15ActorOp{{c(up("db1", 10, "c1"))}, {c(cr("db2", 20, "c2"))}}},
@@ -657,6 +673,14 @@ func c15FixedRaceCases() []c15RaceCase {
 		{p0, [][]c15ActorOp{{c(up("db1", 10, "c1")), c(up("db1", 11, "c1", "c3"))}, {c(up("db1", 20, "c2"))}}},
 		{p0, [][]c15ActorOp{{c(del("db1"))}, {c(cr("db1", 20, "c3"))}}},
 		{p0, [][]c15ActorOp{{c(del("db1"))}, {c(cr("db1", 20, "c1")), ld}}},
+		// a delete that died between the registry mark and the removal of the config document, then two nodes race
+		// the recovery: one waits for the document to disappear while the other cleans up and re-creates the
+		// database at a generation not above the deleted one
+		{pdel, [][]c15ActorOp{{c(cr("db1", 10, "c2"))}, {c(cr("db1", 20, "c3"))}}},
+		{pdel, [][]c15ActorOp{{c(del("db1"))}, {c(cr("db1", 20, "c3"))}}},
+		{pdel, [][]c15ActorOp{{c(up("db1", 10, "c2"))}, {c(cr("db1", 20, "c3"))}}},
+		{pdel2, [][]c15ActorOp{{c(cr("db1", 10, "c3"))}, {c(cr("db1", 20, "c1")), ld}}},
+		{pdel2, [][]c15ActorOp{{c(del("db1")), c(cr("db2", 11, "c1"))}, {c(cr("db1", 20, "c1"))}}},
 	}
 }
 
